@@ -4,6 +4,7 @@
 (* reports the column (tabs expanded) of the first token of every line: c1, c2.                 *)
 (*   property  SameBlockSameColumn / OneLevelDeeper / CloseBraceAligns on c1                    *)
 (*             OriginalIndentIrrelevant  c1 = c2                                                *)
+(*             the same three clauses on c3, the rendering with comments                        *)
 (*   mechanism ColumnsAsModel  c1 = Cols(prog, opts)                                  (DRIFT)   *)
 EXTENDS Indent, IOUtils
 TraceLog == ndJsonDeserialize(IOEnv.TRACE)
@@ -17,8 +18,14 @@ TNext == /\ l <= Len(TraceLog) /\ l' = l + 1 /\ UNCHANGED vars
                        (IF ~OneLevelDeeper(P, e.c1, e.o) THEN {"OneLevelDeeper"} ELSE {}) \cup
                        (IF ~CloseBraceAligns(P, e.c1, e.o) THEN {"CloseBraceAligns"} ELSE {}) \cup
                        (IF ~BracePlacement(P, e.c1, e.o) THEN {"BracePlacement"} ELSE {}) \cup
-                       (IF e.c1 # e.c2 THEN {"OriginalIndentIrrelevant"} ELSE {})
-                drift == IF e.rc = 0 /\ e.c1 # Cols(P, e.o) THEN {"ColumnsAsModel"} ELSE {}
+                       (IF e.c1 # e.c2 THEN {"OriginalIndentIrrelevant"} ELSE {}) \cup
+                       (* the third rendering carries trailing comments and comment lines: the code lines obey the same clauses *)
+                       (IF ~SameBlockSameColumn(P, e.c3) THEN {"SameBlockSameColumn"} ELSE {}) \cup
+                       (IF ~OneLevelDeeper(P, e.c3, e.o) THEN {"OneLevelDeeper"} ELSE {}) \cup
+                       (IF ~CloseBraceAligns(P, e.c3, e.o) THEN {"CloseBraceAligns"} ELSE {}) \cup
+                       (IF ~BracePlacement(P, e.c3, e.o) THEN {"BracePlacement"} ELSE {})
+                drift == (IF e.rc = 0 /\ e.c1 # Cols(P, e.o) THEN {"ColumnsAsModel"} ELSE {}) \cup
+                         (IF e.rc = 0 /\ e.c3 # e.c1 THEN {"CommentsMoveCode"} ELSE {})
             IN (bad # {} \/ drift # {}) => PrintT("@@" \o ToJson([l |-> l, id |-> e.id, bad |-> bad, drift |-> drift,
                                                                   expected |-> IF e.rc = 0 THEN Cols(P, e.o) ELSE <<>>]))
 TInit == l = 1 /\ prog = <<>> /\ stack = <<>> /\ closed = ""
